@@ -236,17 +236,30 @@ def prob_order2(mk, ikind, kind, dim, mkind, origin=False):
     return out_items
 
 
-def prob_order2_constrained(mk, solver="newton", n_inner=1):
+def prob_order2_constrained(mk, solver="newton", n_inner=1, mkind="identity", hausdorff=True):
     """Constrained leapfrog on a circle (curved manifold), real projection solver in the series domain: one step agrees with
-    the exact constrained flow (Lagrange multiplier from d^2 c/dt^2 = 0) through eps^2; energy error has no eps^0..eps^2 term."""
+    the exact constrained flow of the system's OWN Hamiltonian through eps^2; energy error has no eps^0..eps^2 term.  The
+    reference vector field is derived from the documented Hamiltonian (potential, plus half the log-determinant of the Gram
+    matrix J M^-1 J^T when the density is with respect to the Lebesgue measure; kinetic energy with the constant metric M;
+    Lagrange multiplier from d^2 c / dt^2 = 0) - not from the system's derivative methods."""
     dim = 2
-    sysm, info = sl.make_system(S, M, mk, "constr", dim, mkind="identity", ckind="sphere", hausdorff=True)
+    sysm, info = sl.make_system(S, M, mk, "constr", dim, mkind=mkind, ckind="sphere", hausdorff=hausdorff)
     cm, model = info["constraint"], info["model"]
-    tag = f"constrained/{solver}/inner{n_inner}"
+    tag = f"constrained/{solver}/inner{n_inner}/{mkind}/{'hausdorff' if hausdorff else 'lebesgue'}"
     a, b, w = mk.real("qa"), mk.real("qb"), mk.real("pw")
     q = np.array([a, b], dtype=object if mk.symbolic else float)
     cm.r2 = a * a + b * b  # the start point defines the radius: on the manifold by construction
-    p = np.array([-b * w, a * w], dtype=object if mk.symbolic else float)  # tangent: q.p = 0
+    Md = info["metric_dense"](list(q))
+    Mi = ml.inv(Md)
+    p = Md @ np.array([-b * w, a * w], dtype=object if mk.symbolic else float)  # cotangent: J M^-1 p = 2 q . (M^-1 p) = 0
+
+    def field(qv, pv):
+        gU = np.array(model.G(list(qv)), dtype=object if mk.symbolic else float)
+        if not hausdorff:
+            gU = gU + (Mi @ qv) / (qv @ (Mi @ qv))  # gradient of 1/2 log(4 q^T M^-1 q)
+        v = Mi @ pv
+        lam = (v @ v - qv @ (Mi @ gU)) / (2 * (qv @ (Mi @ qv)))
+        return v, -(gU + lam * (2 * qv))
     if mk.symbolic:
         mk.require((a * a + b * b) > 0)
         Ser.SHIFT_DIV = True
@@ -269,10 +282,7 @@ def prob_order2_constrained(mk, solver="newton", n_inner=1):
         # exact constrained flow by Picard iteration
         qs, ps = series_array(q), series_array(p)
         for _ in range(Ser.N + 1):
-            gU = model.G(list(qs))
-            lam = (ps @ ps - qs @ gU) / (2 * (qs @ qs))
-            fq = ps
-            fp = -(gU + lam * (2 * qs))
+            fq, fp = field(qs, ps)
             qs = np.array([Ser([x0]) + Ser.lift(f).integrate() for x0, f in zip(q, fq)], dtype=object)
             ps = np.array([Ser([x0]) + Ser.lift(f).integrate() for x0, f in zip(p, fp)], dtype=object)
         items = []
@@ -294,11 +304,7 @@ def prob_order2_constrained(mk, solver="newton", n_inner=1):
         qq, pp = q.copy(), p.copy()
         nsub = 2000
         hh = eps / nsub
-
-        def f(q_, p_):
-            gU = np.asarray(model.G(list(q_)), dtype=float)
-            lam = (p_ @ p_ - q_ @ gU) / (2 * (q_ @ q_))
-            return p_, -(gU + lam * 2 * q_)
+        f = field
         for _ in range(nsub):
             k1 = f(qq, pp); k2 = f(qq + hh / 2 * k1[0], pp + hh / 2 * k1[1]); k3 = f(qq + hh / 2 * k2[0], pp + hh / 2 * k2[1]); k4 = f(qq + hh * k3[0], pp + hh * k3[1])
             qq = qq + hh / 6 * (k1[0] + 2 * k2[0] + 2 * k3[0] + k4[0])
